@@ -282,6 +282,26 @@ class Solver:
         structure1.add_conn(pin1, structure2, pin2)
         structure2.add_conn(pin2, structure1, pin1)
 
+    def check_free_pin(self, structure: Structure, pin: Pin | str) -> None:
+        """Check that a pin of a structure can take a new connection
+
+        Args:
+            structure (Structure) : structure in the solver
+            pin (Pin | str) : pin or pin name of the structure
+
+        Raises:
+            ValueError: if the pin is unknown, already connected or not a free pin of the solver
+        """
+        if isinstance(pin, str):
+            pins = structure.pin
+            if pin not in pins:
+                raise ValueError(f"Pin {pin} not found in {structure}")
+            pin = pins[pin][1]
+        if (structure, pin) in self.connections_list:
+            raise ValueError("Pin already connected")
+        if (structure, pin) not in self.free_pins:
+            raise ValueError(f"Pin {pin} of {structure} is not a free pin of {self}")
+
     def connect_all(
         self,
         structure1: Structure,
@@ -505,6 +525,11 @@ class Solver:
                     break
             else:
                 raise ValueError(f"Pin {source_pin} not found in {self}")
+
+        if (source_pin is not None) and (target_pin is not None):
+            if source_pin not in self.pin_mapping:
+                raise ValueError(f"Pin {source_pin} not found in {self}")
+            sol_list[-1].check_free_pin(target_pin[0], target_pin[1])
 
         if param_mapping is None:
             param_mapping = {}
